@@ -265,6 +265,7 @@ type Frame struct {
 	loopChain  map[*ssa.BasicBlock][]*ssa.BasicBlock
 	loopEntry  map[*ssa.BasicBlock]*State
 	rangeIdxFn map[int]string
+	spawned    bool                // goroutine body executed at its go statement (spawn_inline)
 	curIns     ssa.Instruction     // instruction being executed
 	dbgAll     map[string][]dbgRec // every value reference of a source variable, with its position
 }
